@@ -776,6 +776,20 @@ class Checker:
                'RRTStar.distance is not the per-call selection between fsr.arcDistance (dmode 1) and fsr.distance: %s - with a metric that is chosen once (or read '
                'from anything but the current dmode) nodes grown after `dmode` is changed get costs, acceptance decisions and parents under the other metric' % why[:200])
 
+    def node_identity(self):
+        """R16.12: the spatial index pickles the nodes it stores and hands back unpickled copies on every query.  A copy carries the cost, parent
+        and children the planner assigned only if PathNode is pickled field by field (the default): a pickling hook that rebuilds a node
+        through its constructor re-derives those fields."""
+        rep = self.rep
+        rep.rule('R16.12', 'PathNode defines no pickling / copying hook (__reduce__, __reduce_ex__, __getstate__, __setstate__, __getnewargs__, __copy__, __deepcopy__): '
+                           'nodes returned by the index carry the bookkeeping the planner assigned')
+        HOOKS = ('__reduce__', '__reduce_ex__', '__getstate__', '__setstate__', '__getnewargs__', '__getnewargs_ex__', '__copy__', '__deepcopy__')
+        present = [h for h in HOOKS if h in self.node.methods]
+        rep.ob('R16.12', self.node.methods['__init__'], 'PathNode is pickled field by field', not present,
+               'PathNode defines %s: the R-tree stores pickled nodes and every nearest / intersection query returns unpickled copies, so a node rebuilt by that hook '
+               '(through the constructor, from some of its fields) no longer has the cost / parent the planner assigned - stored costs stop being parent cost plus '
+               'edge length under the metric in use' % ', '.join(present))
+
     def progress(self):
         rep = self.rep
         rep.rule('R16.7', 'progress display: divisor is >= 1 for every budget >= 1 (or the division is guarded)')
@@ -851,3 +865,4 @@ def check(model, rep):
     ck.shared_objects()
     ck.progress()
     ck.metric()
+    ck.node_identity()
